@@ -282,6 +282,55 @@ theorem walked_has_status (g : Graph) (fuel : Nat) (s : St) (m : Nat) :
           · exact (grows_popThrough ({ status := s2.status, trace := s2.trace ++ [m], error := none, info := s2.info, stack := s2.stack, idx := s2.idx } : St) m).status m h2
           · exact h2
 
+theorem noteCycle_error (a : St) (m d : Nat) : (noteCycle a m d).error = a.error := by
+  unfold noteCycle; split <;> simp [setAncestor]
+
+theorem visit_keeps_error (g : Graph) (fuel : Nat) (s : St) (m : Nat) (h : s.error.isSome) : visit g fuel s m = s := by
+  cases fuel with
+  | zero => rfl
+  | succ f => unfold visit; simp [h]
+
+/-- walking the requested modules in order: if no error came out at the end, none was pending in between, and every
+    requested module has a status at the end -/
+theorem deps_fold (g : Graph) (fuel m : Nat) : ∀ (ds : List Nat) (s : St),
+    ((ds.foldl (fun acc d => noteCycle (visit g (fuel + 1) acc d) m d) s).error = none) →
+    s.error = none ∧ ∀ d ∈ ds, (statusOf (ds.foldl (fun acc d => noteCycle (visit g (fuel + 1) acc d) m d) s) d).isSome := by
+  intro ds
+  induction ds with
+  | nil => intro s h; exact ⟨h, fun d hd => by cases hd⟩
+  | cons d r ih =>
+    intro s h
+    simp only [List.foldl_cons] at h ⊢
+    obtain ⟨h1, h2⟩ := ih _ h
+    rw [noteCycle_error] at h1
+    -- the state before `d` had no error either: otherwise visit returns it unchanged
+    have hs : s.error = none := by
+      cases he : s.error with
+      | none => rfl
+      | some e =>
+        have := visit_keeps_error g (fuel + 1) s d (by rw [he]; rfl)
+        rw [this, he] at h1; cases h1
+    refine ⟨hs, ?_⟩
+    intro x hx
+    rcases List.mem_cons.mp hx with rfl | hx
+    · -- `x` itself was walked: it has a status right after, and statuses only grow
+      have hw := walked_has_status g fuel s x
+      rcases hw with hw | hw
+      · have g1 := (grows_noteCycle (visit g (fuel + 1) s x) m x).status x hw
+        have g2 := foldl_grows (fun acc d => noteCycle (visit g (fuel + 1) acc d) m d)
+          (fun s d => (visit_grows g (fuel + 1) s d).trans (grows_noteCycle _ m d)) r (noteCycle (visit g (fuel + 1) s x) m x)
+        exact g2.status x g1
+      · rw [hs] at hw; cases hw
+    · exact h2 x hx
+
+/-- DEPENDENCIES FIRST: when the body of a module runs, every module it requests has already been walked — it is
+    evaluated (its body ran before), or it is still `evaluating`, which only an ancestor on the stack can be (a cycle) -/
+theorem deps_walked_before_body (g : Graph) (fuel : Nat) (s : St) (m : Nat) :
+    let s2 := (g.depsOf m).foldl (fun acc d => noteCycle (visit g (fuel + 1) acc d) m d) (enter s m)
+    s2.error = none → ∀ d ∈ g.depsOf m, (statusOf s2 d).isSome :=
+  fun h => (deps_fold g fuel m (g.depsOf m) (enter s m) h).2
+
+
 -- examples: a diamond with a shared dependency, a cycle, and an error in the middle
 example : (evaluate ⟨[[1, 2], [3], [3], []], [false, false, false, false]⟩ St.init 0).trace = [3, 1, 2, 0] := by decide
 example : (evaluate ⟨[[1], [2], [0]], [false, false, false]⟩ St.init 0).trace = [2, 1, 0] := by decide
